@@ -55,12 +55,26 @@ def _compile(text, olds):
 
 
 BASE_ENV = {
-    "val": lambda x: x, "is_none": lambda x: x is None, "Some": lambda x: x, "final": lambda x: x,
+    "val": lambda x: x, "is_none": lambda x: x is None, "Some": lambda x: x, "final": lambda x: x, "class_of": lambda x: type(x),
     "iff": lambda a, b: bool(a) == bool(b), "ite": lambda c, a, b: a if c else b,
     "select": lambda m, k: (k in m) if isinstance(m, (set, frozenset)) else m.get(k),
     "len": len, "min": min, "max": max, "isinstance": isinstance, "all": all, "any": any,
     "True": True, "False": False, "None": None,
 }
+
+
+def _snapshot(v):
+    """The value of an old(...) expression: containers are copied (they may be changed in place by the call), the objects they hold are
+    kept by reference (object identity is what the contracts' `==` on objects means)."""
+    if isinstance(v, list):
+        return [_snapshot(x) for x in v]
+    if isinstance(v, tuple):
+        return tuple(_snapshot(x) for x in v)
+    if isinstance(v, dict):
+        return {k: _snapshot(x) for k, x in v.items()}
+    if isinstance(v, (set, frozenset)):
+        return type(v)(v)
+    return v
 
 
 class NativeSpec:
@@ -112,7 +126,7 @@ class NativeSpec:
         out = []
         for text in clauses:
             olds = []
-            out.append((text, _compile(text, olds), [(k, compile(e, "<old>", "eval")) for k, e in olds]))
+            out.append((text, _compile(text, olds), [(k, compile(ast.fix_missing_locations(e), "<old>", "eval")) for k, e in olds]))
         return out
 
     def eval_pre(self, prepared, env):
@@ -122,7 +136,7 @@ class NativeSpec:
         oldvals = {}
         for text, code, olds in prepared:
             for k, oc in olds:
-                oldvals[(text, k)] = copy.deepcopy(eval(oc, self.cur_env))
+                oldvals[(text, k)] = _snapshot(eval(oc, self.cur_env))
         return oldvals
 
     def check(self, prepared, env, oldvals=None):
